@@ -86,6 +86,14 @@ def main():
         if pid == 'C02':
             L.append('* C02 additionally runs the UB build (`ub=True, nofunc=True`) of: %s' % ', '.join('`%s`' % f.name for f in fs if f.properties and f.properties[0] != 'C02'))
         L.append('')
+    L.append('### 8.5 Quick tier as last run on the repaired tree (from evidence/*.json)\n')
+    L.append('| property | queries | UNSAT with reachable witness | wall s (16 cores) | solver s (sum) | translator-validation vectors | known findings confirmed |')
+    L.append('|---|---|---|---|---|---|---|')
+    import glob
+    for f in sorted(glob.glob(os.path.join(ROOT, 'evidence', 'C*.json'))):
+        e = json.load(open(f)); c = e['coverage']
+        L.append('| %s | %d | %d | %.0f | %.0f | %d | %d |' % (e['property_id'], c.get('obligations', 0), c.get('discharged', 0), e.get('wall_s', 0), c.get('solver_seconds_total', 0), c.get('traces_validated_against_impl', 0), len(c.get('known_findings_confirmed', []))))
+    L.append('')
     txt = '\n'.join(L)
     p = os.path.join(ROOT, 'DESIGN.md')
     s = open(p).read()
